@@ -216,9 +216,9 @@ PROPS["C16"] = {
              "sequential baseline; a race report with a go-slug frame is a violation. History operations include Packs that fail (nested dereferencing loop, illegal link after other entries); trees may link to a directory outside. Non-trivial = tree with links or ignore processing, a "
              "non-empty history, or a concurrent round; distinct by case hash."),
     "assumptions": ["the harness does not own the Go scheduler: interleavings are sampled", "cwd is process-global, spelling variants run sequentially"],
-    "quick": [rapid("spelling", "^TestPropSpelling$", 150, shards=3), rapid("history", "^TestPropHistory$", 250, shards=2), rapid("deepderef", "^TestPropDeepDeref$", 14, shards=1),
+    "quick": [rapid("spelling", "^TestPropSpelling$", 150, shards=3), rapid("history", "^TestPropHistory$", 250, shards=2), rapid("deepderef", "^TestPropDeepDeref$", 14, shards=1), rapid("danglingroot", "^TestPropDanglingRoot$", 20, shards=1),
               rapid("concurrent", "^TestPropConcurrent$", 12, shards=5, race=True)],
-    "thorough": [rapid("spelling", "^TestPropSpelling$", 3000, shards=6), rapid("history", "^TestPropHistory$", 3000, shards=4), rapid("deepderef", "^TestPropDeepDeref$", 110, shards=1),
+    "thorough": [rapid("spelling", "^TestPropSpelling$", 3000, shards=6), rapid("history", "^TestPropHistory$", 3000, shards=4), rapid("deepderef", "^TestPropDeepDeref$", 110, shards=1), rapid("danglingroot", "^TestPropDanglingRoot$", 100, shards=1),
                  rapid("concurrent", "^TestPropConcurrent$", 120, shards=14, race=True)],
 }
 
